@@ -6,7 +6,7 @@
 //	ops:     P <hexhead>:<sym>.<sym>...  -> -         (a production of the input grammar; sym = t<hex> | n<hex>)
 //	         DEL|UNIT|UNREACH|CYCLES|ELR|LF|CNF|START|TERM|BIN
 //	             -> ok T=.. N=.. S=.. P=<prod>,<prod>.. eq=<t|f> v=<t|f> [cnf=<t|f>] [order=<hex>,..]
-//	             -> PANIC:<reason> | HANG | INVALID
+//	             -> PANIC:<reason> | HANG | INVALID | LARGE n=<productions> eq=<t|f>   (output too large to compare)
 //	         NULLABLE -> ok N=<hex>,..
 //	         PBT|LR0|LR1|LR0K|LR1K -> ok eq=<t|f>
 //	         SUFFIXES -> ok prime=<hex>,.. alpha=.. numeric=..
@@ -202,6 +202,16 @@ func b(x bool) string {
 }
 
 func transform(g *grammar.CFG, op string) string {
+	extra := ""
+	res := transform1(g, op, &extra)
+	if strings.HasPrefix(res, "PANIC") || res == "HANG" {
+		// keep what was observed before the failure (the order used by EliminateLeftRecursion)
+		return res + extra
+	}
+	return res
+}
+
+func transform1(g *grammar.CFG, op string, extraOut *string) string {
 	return guarded(func() string {
 		clone := g.Clone()
 		var out *grammar.CFG
@@ -223,6 +233,7 @@ func transform(g *grammar.CFG, op string) string {
 				os[i] = hx(string(n))
 			}
 			extra = " order=" + strings.Join(os, ",")
+			*extraOut = extra
 			out = g.EliminateLeftRecursion()
 		case "LF":
 			out = g.LeftFactor()
@@ -237,6 +248,15 @@ func transform(g *grammar.CFG, op string) string {
 			out = grammar.VerifEliminateNonBinaryProductions(g)
 		default:
 			return "?"
+		}
+		// outputs of exponential size (EliminateLeftRecursion, ε-elimination) are not compared:
+		// neither C08 nor C09 bounds the size, and the list-based model would take minutes
+		np := 0
+		for range out.Productions.All() {
+			np++
+		}
+		if np > 2500 {
+			return fmt.Sprintf("LARGE n=%d eq=%s", np, b(g.Equal(clone) && clone.Equal(g)))
 		}
 		return "ok " + encGrammar(out) + " eq=" + b(g.Equal(clone) && clone.Equal(g)) + " v=" + b(out.Verify() == nil) + extra
 	})
@@ -670,15 +690,15 @@ func main() {
 			exhaustive(w, []string{"S", "A", "B"}, []string{"a", "b"}, 1, 3, 2003, off, allOps)
 		} else {
 			exhaustive(w, []string{"S"}, []string{"a", "b"}, 2, 3, 1, 0, allOps)
-			exhaustive(w, []string{"S", "A"}, []string{"a"}, 2, 2, 7, off, allOps)
-			exhaustive(w, []string{"S", "A"}, []string{"a", "b"}, 2, 2, 211, off, allOps)
-			exhaustive(w, []string{"S", "A", "B"}, []string{"a"}, 2, 2, 30011, off, allOps)
-			exhaustive(w, []string{"S", "A", "B"}, []string{"a", "b"}, 1, 3, 40009, off, allOps)
+			exhaustive(w, []string{"S", "A"}, []string{"a"}, 2, 2, 3, off, allOps)
+			exhaustive(w, []string{"S", "A"}, []string{"a", "b"}, 2, 2, 101, off, allOps)
+			exhaustive(w, []string{"S", "A", "B"}, []string{"a"}, 2, 2, 20011, off, allOps)
+			exhaustive(w, []string{"S", "A", "B"}, []string{"a", "b"}, 1, 3, 30011, off, allOps)
 		}
 	case "random":
-		n := 700
+		n := 1000
 		if thorough {
-			n = 12000
+			n = 6000
 		}
 		for i := 0; i < n; {
 			if emit(w, randomGrammar(r), allOps) {
@@ -686,9 +706,9 @@ func main() {
 			}
 		}
 	case "adversarial":
-		n := 240
+		n := 480
 		if thorough {
-			n = 3000
+			n = 2000
 		}
 		adversarial(w, r, n, allOps)
 	}
